@@ -70,4 +70,60 @@ theorem exec_forRange_empty (fuel : Nat) (v : String) (lo hi : IE) (body : St) (
   simp only [exec, IE.ok, IE.eval, hlo, hok, rangeList_empty _ _ hn]
   simp [hc]
 
+/-- `range(lo, hi)` with step 1, any bounds: `lo, lo + 1, …` (`(hi - lo).toNat` numbers) -/
+theorem rangeList_step1 (lo hi : Int) :
+    rangeList lo hi 1 = (List.range (hi - lo).toNat).map (fun (k : Nat) => lo + (k : Int)) := by
+  unfold rangeList
+  simp only [show (1 : Int) > 0 by decide, if_true]
+  have : (hi - lo + 1 - 1) / 1 = hi - lo := by
+    have : hi - lo + 1 - 1 = hi - lo := by omega
+    rw [this]; simp
+  rw [this]
+  simp
+
+/-- `for v in range(lo, hi, 1)`, any bounds -/
+theorem exec_forRange_step1 (fuel : Nat) (v : String) (lo hi : IE) (body : St) (s : State F)
+    (hlo : lo.ok s = true) (hok : hi.ok s = true) :
+    exec fuel (.forRange v lo hi (.lit 1) body) s =
+      loopOver (fun st i => exec fuel body { st with ienv := setS st.ienv v i })
+        ((List.range (hi.eval s - lo.eval s).toNat).map (fun (k : Nat) => lo.eval s + (k : Int))) s := by
+  simp only [exec, IE.ok, IE.eval, hlo, hok, rangeList_step1]
+  simp
+
+/-- a loop without early exit as a fold: every iteration started in a running state that is `Good` ends running and
+    `Good`, and changes the observed value `val` by `g` -/
+theorem loopOver_foldl {α β} (f : State F → α → State F) (xs : List α) (Good : State F → Prop)
+    (val : State F → β) (g : β → α → β)
+    (hstep : ∀ st x, x ∈ xs → st.ctl = .run → Good st →
+      (f st x).ctl = .run ∧ Good (f st x) ∧ val (f st x) = g (val st) x)
+    (s : State F) (h0 : s.ctl = .run) (hg : Good s) :
+    (loopOver f xs s).ctl = .run ∧ Good (loopOver f xs s) ∧ val (loopOver f xs s) = xs.foldl g (val s) := by
+  induction xs generalizing s with
+  | nil => simp [h0, hg]
+  | cons x xs ih =>
+    obtain ⟨hc, hgd, hv⟩ := hstep s x (by simp) h0 hg
+    rw [loopOver_cons _ _ _ _ h0, afterBody_run _ hc]
+    simp only [hc, if_true, List.foldl_cons]
+    rw [← hv]
+    exact ih (fun st y hy => hstep st y (by simp [hy])) _ hc hgd
+
+/-! ### non-negative integer indices -/
+
+theorem normIdx_nonneg (i : Int) (n : Nat) (h : 0 ≤ i) : normIdx i n = i := by
+  unfold normIdx; simp; omega
+
+theorem inRange_of_nonneg_lt (i : Int) (n : Nat) (h0 : 0 ≤ i) (h1 : i < n) : inRange i n = true := by
+  unfold inRange; rw [normIdx_nonneg i n h0]; simp; omega
+
+theorem off2_nonneg (r c : Nat) (i j : Int) (hi : 0 ≤ i) (hj : 0 ≤ j) :
+    off2 [r, c] i j = i.toNat * c + j.toNat := by
+  unfold off2; simp [normIdx_nonneg, hi, hj]
+
+/-- an index at or beyond the extent is out of range (numba does not wrap it) -/
+theorem inRange_ge (i : Int) (n : Nat) (h : (n : Int) ≤ i) : inRange i n = false := by
+  unfold inRange normIdx
+  have : ¬ i < 0 := by omega
+  simp only [this, if_false]
+  simp; omega
+
 end XrsVerif.IL
